@@ -24,6 +24,7 @@ SUITE_MODULES = {
     "typestate": "StreamTSC", "request": "SessionC",
     "session": "E2C", "control": "E2C", "control_cut": "E2C", "streams": "E2C", "foreign": "E2C",
     "unknown_uni": "E2C", "stall": "E2C", "pace": "E2C", "emit": "E2C", "signals": "E2C", "wdgram": "E2C", "client": "E2C",
+    "pin": "E4C", "digest": "E4C", "pem": "E4C", "identity": "E4C", "bind": "E4C", "idle": "E4C", "alpn": "E4C", "reload": "E4C",
     "wire": "WireC", "settings": "WireC", "dgram": "WireC", "capsule": "WireC", "ids": "WireC", "status": "WireC",
 }
 
@@ -285,6 +286,44 @@ PROPS["C06"] = {
     "design_ref": "DESIGN.md 5 (C06)",
     "trusted_base": ["quinn stream life-cycle"],
     "assumptions": [],
+}
+
+TLS_NOTE = "partial: the library's own logic is proved on the model; X.509/DER parsing, SHA-256, key generation, signatures, the TLS handshake, the OS socket layer and quinn's timers are oracles observed by the suites"
+
+PROPS["C10"] = {
+    "title": "Certificate-hash pinning accepts exactly the pinned, short-lived P-256 leaf",
+    "corr_modules": ["E4C"],
+    "suites": [("e4", "pin", ["debug"]), ("e4", "identity", ["debug"])],
+    "technique": PROOF_TECH,
+    "level_text": "theorem: verify = Ok iff parse ok AND now within [not_before, not_after] (seconds, inclusive) AND period <= 14 days AND EC key AND P-256 AND hash in the set, with the refusal value per failed condition; pre-repair code refuted; tie: rcgen certificates (P-256/P-384/Ed25519) with windows around the 14-day bound to the second and now on each side of both ends, through the public ServerCertVerifier API with an injected clock",
+    "level_note": TLS_NOTE,
+    "design_ref": "DESIGN.md 5 (C10)",
+    "trusted_base": ["x509-parser, sha2, rcgen, ring, rustls (oracles)"],
+    "assumptions": ["the default trust policy (WebPKI roots) is rustls' and is not modelled"],
+}
+
+PROPS["C19"] = {
+    "title": "Identities, PEM files and digests round-trip; generated certs are W3C-conformant",
+    "corr_modules": ["E4C"],
+    "suites": [("e4", "digest", ["debug"]), ("e4", "pem", ["debug"]), ("e4", "identity", ["debug"])],
+    "technique": PROOF_TECH,
+    "level_text": "theorems: both digest text formats and FromStr round-trip for all 32-byte values (per-byte print/parse facts by exhaustive computation inside the proof, split/join by induction); Base64 is lossless for every byte string; a generated identity of <= 14 days is accepted by pinning with its own hash; tie: digests, arbitrary/corrupt digest text, PEM of arbitrary key bytes compared byte for byte, chains of 0..8 certificates through files, generated identities parsed with x509-parser",
+    "level_note": TLS_NOTE,
+    "design_ref": "DESIGN.md 5 (C19)",
+    "trusted_base": ["pem / rustls-pki-types PEM parser, rcgen, x509-parser (oracles)"],
+    "assumptions": [],
+}
+
+PROPS["C20"] = {
+    "title": "Configuration is honoured",
+    "corr_modules": ["E4C"],
+    "suites": [("e4", "bind", ["debug"]), ("e4", "idle", ["debug"]), ("e4", "alpn", ["debug"]), ("e4", "reload", ["debug"])],
+    "technique": PROOF_TECH,
+    "level_text": "theorems: the bind presets map to the documented (address, IPV6_V6ONLY) table; an idle timeout is applied exactly in milliseconds iff representable (< 2^62 ms) and refused otherwise; tie: every preset and explicit address bound for real on both roles with reachability over IPv4/IPv6 loopback, idle timeouts at the representability boundary, observed idle expiry and keep-alive, ALPN refusal, reload_config with and without rebind",
+    "level_note": TLS_NOTE,
+    "design_ref": "DESIGN.md 5 (C20)",
+    "trusted_base": ["OS socket layer, quinn timers, rustls ALPN negotiation (observed)"],
+    "assumptions": ["Linux default for IPV6_V6ONLY (dual stack) when left to the OS"],
 }
 
 ALL_IDS = ["C%02d" % i for i in range(1, 21)]
